@@ -22,10 +22,11 @@ EXPLANATION = (
     "it is an active variable, decided for resolution 0 (one-point grid) and > 0 (G10); G11 - write_from_scope together with Op.increment is "
     "interpreted abstractly (sa/absexec.py) on engines with 1-3 inputs whose bounds and current values are symbols, for both scopes, every "
     "size up to a bound and every active set, with the floating root estimate modelled as any integer within one of the exact root: the "
-    "matrix handed to write() is exactly the specified grid (size, inclusive equidistant values as exact linear forms, lexicographic order)"
+    "matrix handed to write() is exactly the specified grid (size, inclusive equidistant values as exact linear forms, lexicographic order); write (W4), "
+    "write_from_reader (G9) and Op.increment (G8) are decided the same way; every parameter of the FldExporter methods is read (W5: a wrapper that drops an option)"
 )
 ASSUMPTIONS = ["numpy.savetxt / hstack semantics; the printed digits are not decided", "round(pow(v, 1/n)) is within one of the exact integer root (G11 runs the integer correction for all three estimates)", "grid bounds: 1-3 input variables, sizes up to 29 (quick) / 69 (thorough)"]
-FLOORS = {"G11": 3, "G10": 1, "N1": 2, "G8": 4, "W4": 8, "S4": 2, "G9": 1, "N2": 1}
+FLOORS = {"W5": 1, "G11": 3, "G10": 1, "N1": 2, "G8": 4, "W4": 8, "S4": 2, "G9": 1, "N2": 1}
 
 TRUNCATORS = {"int", "math.floor", "numpy.floor", "math.trunc", "numpy.trunc", "numpy.fix", "numpy.floor_divide"}
 ROOT_CALLS = {"pow", "math.pow", "numpy.power", "numpy.float_power"}
@@ -92,6 +93,9 @@ def run(check: Check) -> None:
     grid_size(check)
     active_variables(check)
     grid_semantics(check)
+    from .common import unused_parameters
+
+    unused_parameters(check, "W5", {"FldExporter"}, {"Operation.increment", "Operation.midpoints"})
     increment(check)
     write_plumbing(check)
     header_agreement(check)
